@@ -3,6 +3,7 @@ package props
 import (
 	"encoding/gob"
 	"fmt"
+	"os"
 	"reflect"
 	"sort"
 	"strings"
@@ -487,10 +488,62 @@ func runC16diff(t *vf.T, maxLen int, firstLen int) {
 	t.Nontrivial("")
 }
 
+// runC16registry checks what the location comparison works on: the list a process reports for its
+// own registry. Every Func of this harness is created on a source line of its own, so the entries
+// must be pairwise distinct and each must name the line of its bigslice.Func call; a registry that
+// holds the same Funcs in another order must then be told apart by the diff.
+func runC16registry(t *vf.T) {
+	locs := bigslice.FuncLocations()
+	if len(locs) < 6 {
+		t.Violate("registry too-short", fmt.Sprintf("FuncLocations reports %d entries; this process registered at least 6 Funcs", len(locs)))
+		return
+	}
+	seen := map[string]int{}
+	for i, l := range locs {
+		if j, ok := seen[l]; ok {
+			t.Violate("registry location-not-the-definition-site", fmt.Sprintf("Funcs %d and %d, created on different source lines, both report the location %s", j, i, l))
+			return
+		}
+		seen[l] = i
+		k := strings.LastIndex(l, ":")
+		if k < 0 {
+			t.Violate("registry location-malformed", l)
+			return
+		}
+		var line int
+		fmt.Sscanf(l[k+1:], "%d", &line)
+		src, err := os.ReadFile(l[:k])
+		if err != nil {
+			t.Count("registry_locations_whose_source_could_not_be_read", 1)
+			continue
+		}
+		lines := strings.Split(string(src), "\n")
+		if line < 1 || line > len(lines) || !strings.Contains(lines[line-1], "bigslice.Func(") {
+			t.Violate("registry location-not-the-definition-site", fmt.Sprintf("Func %d reports the location %s, which is not the line of its bigslice.Func call", i, l))
+			return
+		}
+		t.Count("registry_locations_checked_against_source", 1)
+	}
+	// the same Funcs registered in another order: every transposition must be detected
+	for i := 0; i < len(locs); i++ {
+		for j := i + 1; j < len(locs); j++ {
+			other := append([]string{}, locs...)
+			other[i], other[j] = other[j], other[i]
+			if d := bigslice.FuncLocationsDiff(locs, other); len(d) == 0 {
+				t.Violate("registry reordering-not-detected", fmt.Sprintf("the registry with Funcs %d and %d exchanged is reported as identical", i, j))
+				return
+			}
+			t.Count("registry_reorderings_detected", 1)
+		}
+	}
+	t.Nontrivial("")
+}
+
 func runC16(r *vf.Runner) {
 	pool := &sessionPool{}
 	defer pool.closeAll()
 	rnd := r.Rand("c16")
+	r.Case(map[string]any{"kind": "registry"}, func(t *vf.T) { runC16registry(t) })
 	n, ne := 200, 24
 	if !r.Quick() {
 		n, ne = 5000, 400
